@@ -19,6 +19,10 @@ CHECKS = {
    technique="bounded-exhaustive enumeration of documents x ordered format pairs, metamorphic two-hop oracle on the real library (idempotence and round trip), both supply modes at each hop",
    text="For every enumerated document (C01 corpus, boundary-sized collections, buffer-straddling strings, extensions) and every ordered pair (A,B): whenever xt(A->B)(x) succeeds, xt(B->B) reproduces it byte for byte from slice and reader, and for common-model documents xt(B->A) of it equals xt(A->A)(x) (TOML: of the reordered value).",
    note="Metamorphic oracle: xt is compared with itself, so a defect that affects both sides identically is invisible here (C01 covers absolute fidelity)."),
+ "C08": dict(cat="model_checking", design="4.8",
+   technique="exhaustive enumeration of call histories (depth 3) on one real Translator(TOML) against a reference model of the one-use state, plus refusals planted at every node of every small tree; validity decided by an independent TOML reader",
+   text="Every history of up to 3 calls over the input alphabet (all source formats, slice and reader, accepted / refused / empty / multi-document / malformed inputs) leaves the writer with nothing or exactly one valid TOML document equal to the accepted value, refuses every later document, and writes nothing for a refused one; every small tree with a null, oversized integer, non-string key or binary planted at any node is refused cleanly; every key style and array shape produces valid TOML that reads back as the value.",
+   note="Trusted: Python tomllib for validity/value; the reference model in c08.rs (boring: a used flag and an acceptability predicate). After malformed inputs only output validity is judged."),
  "C09": dict(cat="model_checking", design="4.9",
    technique="explicit-state BFS to fixpoint over operation programs on the real rewindable input handle (canonical keys read through a hook, validated by probe suffixes) + deviation-bounded schedule exploration of detection over bounded-exhaustive inputs",
    text="(A) every reachable state of the input handle for data sizes 0..n under 5 source answer patterns, every borrow program up to the op bound from each state, both ways of taking ownership from each state, checked against a byte-string+offset reference model; (B) for every corpus input and every read schedule within the deviation bound: detection never errs, undetected inputs fail with exactly 'unable to detect input format', detected inputs behave exactly (verdict, bytes, error text) like the explicit run, slice and reader detect the same format for translatable inputs.",
